@@ -409,7 +409,7 @@ pub const DEP3: &[F] = &[
     F("Origin", false, V::Origin),
     F("Forwarded", false, V::Forwarded),
     F("Author", false, V::Identity),
-    F("Reviewed-By", false, V::Identity),
+    F("Reviewed-by", false, V::Identity),
     F("Bug-Debian", false, V::Url),
     F("Last-Update", false, V::DateYmd),
     F("Applied-Upstream", false, V::Applied),
